@@ -312,6 +312,21 @@ def check(run, ctx):
         run.finding(S8, f"{key[0].replace('src.', '', 1)}.{mu['func']}:{key[1]}", f"module-state:{mu['how']}", f"{key[0]}.{mu['func']} changes the module-level name {key[1]} ({mu['how']}): it lives as long as the process, so what one file, project or lint call leaves there decides the verdict for the next", f"{mu['module'].rel}:{mu['line']}")
     run.ok(S8, "src modules", f"{n_glob} module-level names examined, {len(muts)} run-time mutations, {len(muts) - sum(1 for mu in muts if (mu['module'].name, mu['name']) in S8_ALLOWED)} outside the allowlist")
 
+    S12 = run.rule("S12", "configuration builders (from_dict) and rule-level config loaders do not write into the configuration mapping they are given: the orchestrator hands the same section object to every file of every call", floor=14,
+                   decides="what one file's language (or one lint call) makes of the configuration is not left behind in the shared mapping for the next file")
+    for f in sorted(repo.funcs.values(), key=lambda x: x.qual):
+        if f.parent is not None or not f.module.name.startswith("src.linters.") or f.name != "from_dict":
+            continue
+        ps = [a.arg for a in f.node.args.args if a.arg not in ("self", "cls")]
+        if not ps:
+            continue
+        mut = shared.param_mutations(f, ps[0])
+        sym = f.qual.replace("src.linters.", "")
+        if mut:
+            run.finding(S12, sym, f"config-mutated:{norm(mut[0])[:50]}", f"{f.qual} changes the mapping it is given (`{norm(mut[0])[:80]}`): that mapping is the section of the orchestrator's configuration, shared by every file and every later lint call on the object, so the result for a file depends on which files were linted before it", f"{f.module.rel}:{mut[0].lineno}")
+        else:
+            run.ok(S12, sym, f"reads `{ps[0]}` only")
+
     S5 = run.rule("S5", "constant non-section metadata keys read by rules are written by Orchestrator.lint_file", floor=2)
     lf_f = repo.func(lf)
     written = set()
